@@ -151,6 +151,8 @@ type Env struct {
 	localID netip.Addr
 	failed  []string
 	gates   gates
+	// logDelay: the user's Logger takes this long on every state-transition line (a Logger may block briefly)
+	logDelay time.Duration
 }
 
 type Peer struct {
@@ -194,6 +196,9 @@ func newEnv(idx int, localID string) *Env {
 		msg := m[2]
 		if t := transRe.FindStringSubmatch(msg); t != nil {
 			e.tr.log(p.key, "log.t", t[1], t[2], t[3])
+			if e.logDelay > 0 {
+				time.Sleep(e.logDelay)
+			}
 		} else if t := errRe.FindStringSubmatch(msg); t != nil {
 			cls := "io"
 			if n := nerrRe.FindStringSubmatch(t[3]); n != nil {
@@ -274,6 +279,7 @@ func (e *Env) peerAddr(k int) netip.Addr {
 }
 
 type PeerOpts struct {
+	SmallSndBuf       bool
 	LocalAS, RemoteAS uint32
 	Hold              uint16
 	IdleHold          time.Duration
@@ -316,6 +322,10 @@ func (e *Env) addPeer(k int, o PeerOpts) *Peer {
 		bgp.WithConnectRetryTime(o.ConnectRetry),
 		bgp.WithDialerControl(func(network, address string, c syscall.RawConn) error {
 			e.tr.log(p.key, "dial")
+			if o.SmallSndBuf {
+				// a small send buffer on corebgp's socket: a remote that stops reading blocks corebgp's writers soon
+				c.Control(func(fd uintptr) { syscall.SetsockoptInt(int(fd), syscall.SOL_SOCKET, syscall.SO_SNDBUF, 8192) })
+			}
 			return nil
 		})}
 	if o.Passive {
@@ -374,6 +384,17 @@ func (e *Env) serve() {
 type advListener struct {
 	net.Listener
 	tr *Trace
+	// holdFirst: the first Write on every connection is held (before the bytes are handed to the kernel) until a
+	// Write on another connection of this listener has started, or 150 ms have passed: two messages being sent at
+	// the same time really are in flight together
+	holdFirst bool
+	shared    *advShared
+}
+
+type advShared struct {
+	mu     sync.Mutex
+	writes int
+	cond   *sync.Cond
 }
 
 func (l advListener) Accept() (net.Conn, error) {
@@ -381,21 +402,45 @@ func (l advListener) Accept() (net.Conn, error) {
 	if err != nil {
 		return nil, err
 	}
-	return &advConn{Conn: c, tr: l.tr, wake: make(chan struct{}, 1)}, nil
+	return &advConn{Conn: c, tr: l.tr, wake: make(chan struct{}, 1), holdFirst: l.holdFirst, shared: l.shared}, nil
 }
 
 type advConn struct {
 	net.Conn
-	tr   *Trace
-	mu   sync.Mutex
-	buf  []byte
-	wake chan struct{}
+	tr        *Trace
+	mu        sync.Mutex
+	buf       []byte
+	wake      chan struct{}
+	holdFirst bool
+	nwrites   int
+	shared    *advShared
 }
 
 func (c *advConn) Write(b []byte) (int, error) {
 	select {
 	case c.wake <- struct{}{}:
 	default:
+	}
+	if c.shared != nil {
+		sh := c.shared
+		sh.mu.Lock()
+		sh.writes++
+		mine := sh.writes
+		sh.cond.Broadcast()
+		c.nwrites++
+		if c.holdFirst && c.nwrites == 1 {
+			t := time.AfterFunc(150*time.Millisecond, func() { sh.cond.Broadcast() })
+			deadline := time.Now().Add(150 * time.Millisecond)
+			for sh.writes == mine && time.Now().Before(deadline) {
+				sh.cond.Wait()
+			}
+			t.Stop()
+			// let the other writer get as far as its own Write
+			sh.mu.Unlock()
+			time.Sleep(2 * time.Millisecond)
+			sh.mu.Lock()
+		}
+		sh.mu.Unlock()
 	}
 	n, err := c.Conn.Write(b)
 	c.mu.Lock()
@@ -419,7 +464,9 @@ func (c *advConn) Write(b []byte) (int, error) {
 }
 
 // serveAdversary is serve with the write-interleaving adversary on every accepted connection
-func (e *Env) serveAdversary() {
+func (e *Env) serveAdversary() { e.serveAdv(false) }
+
+func (e *Env) serveAdv(holdFirst bool) {
 	var err error
 	e.lis, err = net.Listen("tcp", "127.0.0.1:0")
 	if err != nil {
@@ -429,7 +476,30 @@ func (e *Env) serveAdversary() {
 	e.serveCh = make(chan error, 1)
 	e.tr.log("-", "api.call", "Serve")
 	go func() {
-		err := e.srv.Serve([]net.Listener{advListener{e.lis, e.tr}})
+		sh := &advShared{}
+		sh.cond = sync.NewCond(&sh.mu)
+		err := e.srv.Serve([]net.Listener{advListener{Listener: e.lis, tr: e.tr, holdFirst: holdFirst, shared: sh}})
+		e.tr.log("-", "api.ret", "Serve", errName(err))
+		e.serveCh <- err
+	}()
+}
+
+// serveN is serve with n listeners (the first is the one the remote dials)
+func (e *Env) serveN(n int) {
+	var ls []net.Listener
+	for i := 0; i < n; i++ {
+		l, err := net.Listen("tcp", "127.0.0.1:0")
+		if err != nil {
+			panic(err)
+		}
+		ls = append(ls, l)
+	}
+	e.lis = ls[0]
+	e.lisAddr = e.lis.Addr().String()
+	e.serveCh = make(chan error, 1)
+	e.tr.log("-", "api.call", "Serve")
+	go func() {
+		err := e.srv.Serve(ls)
 		e.tr.log("-", "api.ret", "Serve", errName(err))
 		e.serveCh <- err
 	}()
@@ -747,6 +817,28 @@ type Conn struct {
 	nsent  int
 	closed bool
 	finned bool // half-closed by us: the end corebgp makes is still observed
+	paused bool // the remote does not read for the moment (its receive window fills up)
+}
+
+// smallWindow shrinks the remote's receive buffer so that a writer on the other side blocks after little data
+func (c *Conn) smallWindow() {
+	if tc, ok := c.c.(*net.TCPConn); ok {
+		tc.SetReadBuffer(32768)
+	}
+}
+
+// pauseReads makes the remote stop reading for d (it keeps the connection open and may keep sending)
+func (c *Conn) pauseReads(d time.Duration) {
+	c.mu.Lock()
+	c.paused = true
+	c.mu.Unlock()
+	c.r.tr().log(c.r.peer.key, "r.pause", c.id, strconv.Itoa(int(d/time.Millisecond)))
+	time.AfterFunc(d, func() {
+		c.mu.Lock()
+		c.paused = false
+		c.mu.Unlock()
+		c.r.tr().log(c.r.peer.key, "r.resume", c.id)
+	})
 }
 
 func newRemote(p *Peer) *Remote { return &Remote{peer: p, accCh: make(chan *Conn, 64)} }
@@ -876,6 +968,15 @@ func (r *Remote) dial() *Conn { return r.dialFrom(r.peer.addr.String(), r.peer.e
 func (c *Conn) readLoop() {
 	buf := make([]byte, 65536)
 	for {
+		for {
+			c.mu.Lock()
+			p := c.paused
+			c.mu.Unlock()
+			if !p {
+				break
+			}
+			time.Sleep(2 * time.Millisecond)
+		}
 		n, err := c.c.Read(buf)
 		if n > 0 {
 			c.mu.Lock()
